@@ -167,6 +167,9 @@ pub fn instances(vars: &[VarDecl], level: u8) -> Vec<Con> {
             pairs.push((View::id(x), View::new(y, 1, 1)));
             pairs.push((View::new(x, 2, 0), View::new(y, -1, 1)));
         }
+        out.push(Con::BinNe(View::new(x, 2, 0), View::id(y)));
+        out.push(Con::BinEq(View::new(x, 2, 0), View::new(y, 1, 1)));
+        out.push(Con::BinNe(View::new(x, -2, 1), View::new(y, 3, 0)));
         for (a, b) in pairs {
             out.push(Con::BinEq(a, b));
             out.push(Con::BinNe(a, b));
@@ -232,6 +235,17 @@ pub fn instances(vars: &[VarDecl], level: u8) -> Vec<Con> {
         out.push(Con::Min(vec![View::id(x), View::new(y, 2, 0)], View::new(z, -1, 0)));
         out.push(Con::AllDiff(vec![View::id(x), View::id(y), View::id(z)]));
         out.push(Con::AllDiff(vec![View::id(x), View::new(y, 1, 1), View::new(z, -1, 0)]));
+        // scaled views meeting values that are not multiples of the scale (removals and
+        // (dis)equality predicates that are trivially true / false on the view)
+        out.push(Con::AllDiff(vec![View::new(x, 2, 0), View::id(y), View::new(z, -2, 1)]));
+        out.push(Con::LinNe(vec![View::new(x, 2, 0), View::id(y), View::id(z)], 1));
+        out.push(Con::LinNe(vec![View::new(x, 2, 0), View::new(y, -2, 0), View::id(z)], 2));
+        out.push(Con::LinEq(vec![View::new(x, 2, 1), View::new(y, 3, 0), View::new(z, -2, 0)], 2));
+        out.push(Con::Element {
+            index: View::id(x),
+            array: vec![View::new(y, 2, 0), View::new(z, 3, 1)],
+            rhs: View::new(z, 2, 1),
+        });
         // element: array[index] == rhs, 0-based
         out.push(Con::Element {
             index: View::id(x),
